@@ -437,6 +437,10 @@ def run_case(case):
         seen_str.add(s)
         strings.append(s)
         oc, r = parse(s)
+        if r is not None:
+            first = list(r)
+            r.append(None)  # a caller that edits the list it got back must not influence the next parse
+            r = first
         oc2, r2 = parse(s)
         sub = {"string": s}
         viol = None
